@@ -12,8 +12,8 @@ CASES = {'quick': 8000, 'thorough': 120000}
 SMALL_BLOCKS = 4      # runner: every 4th case keeps its stores in 2..10-token blocks
 GATES = {
     'quick': {'site:token-twice-in-batch': 50, 'site:consumed-node': 30, 'site:claim-after-release': 200, 'site:meta-update-attached': 30, 'cases_in_small_blocks': 50, 'evaluations': 4500, 'refused_calls_judged': 4500, 'site:attached-node-in-batch': 300, 'site:attached-node-single': 500,
-              'site:index-or-key': 700, 'site:size-mismatch': 200, 'site:raw-text': 200, 'site:cost-combination': 60, 'site:cost-attached': 100,
-              'site:arithmetic-attached': 200, 'site:claim-refused': 300, 'site:payee-attached': 50, 'site:store-foreign-token': 100,
+              'site:index-or-key': 700, 'site:size-mismatch': 200, 'site:raw-text': 170, 'site:cost-combination': 45, 'site:cost-attached': 100,
+              'site:arithmetic-attached': 170, 'site:ancestor-offered': 100, 'consumed_node_as_receiver': 25, 'site:claim-refused': 300, 'site:payee-attached': 50, 'site:store-foreign-token': 100,
               'site:whole-store-child': 50, 'batch_positions_seen': 3},
     'thorough': {'evaluations': 100000, 'batch_positions_seen': 3},
 }
@@ -115,7 +115,7 @@ GARBAGE = ['garbage', '', '"unterminated', '2000-13-45', 'TRUE1', '12x', '#', 'a
 
 def special_step(col, r, f, text, log):
     """One deliberately invalid call outside the catalog. Returns False to end the history."""
-    kind = r.choice(['raw-text', 'raw-text', 'cost-combination', 'cost-attached', 'arithmetic-attached', 'claim-refused', 'claim-refused',
+    kind = r.choice(['raw-text', 'raw-text', 'raw-text', 'cost-combination', 'cost-attached', 'arithmetic-attached', 'arithmetic-attached', 'claim-refused', 'claim-refused',
                      'payee-attached', 'store-foreign-token', 'whole-store-child', 'token-twice-in-batch', 'consumed-node', 'meta-update-attached', 'claim-after-release', 'claim-after-release', 'ancestor-offered'])
     donors = []
     call = None
@@ -312,8 +312,26 @@ def special_step(col, r, f, text, log):
         a_ = models.NumberExpr.from_value(D(r.randint(1, 9)))
         b_ = models.NumberExpr.from_value(D(r.randint(1, 9)))
         a_ += b_
-        how = r.choice(['assign', 'assign', 'operand'])
-        if how == 'assign':
+        how = r.choice(['assign', 'assign', 'operand', 'receiver', 'receiver'])
+        if how == 'receiver':
+            # the consumed expression as the *left* side of an in-place operator: its nodes now live inside another expression (here:
+            # one of the document), which the call must not rewrite before it refuses
+            c_ = common.parser().parse(r.choice(['1+2', '3 - 1', '4']), models.NumberExpr)
+            try:
+                if r.random() < 0.5:
+                    e -= c_
+                else:
+                    e *= c_
+            except Exception:
+                return True
+            log.append(f'(setup) {p_} -= / *= <free expression> (accepted; the operand is consumed)')
+            what = r.choice(['*=', '+=', '-=expr', 'wrap'])
+            desc = f'<expression consumed by {p_}> {what} ...'
+            free = common.parser().parse('5+6', models.NumberExpr)
+            call = {'*=': lambda: operator.imul(c_, 2), '+=': lambda: operator.iadd(c_, 5), '-=expr': lambda: operator.isub(c_, free),
+                    'wrap': c_.wrap_with_parenthesis}[what]
+            col.count('consumed_node_as_receiver')
+        elif how == 'assign':
             desc = f'{p_}.raw_number_add_expr... = <expression already consumed by a += b>'
             parent = next((m for q, m in nodes if any(c is e for _, c in walker.children(m))), None)
             attr = next((a for a, d_, k in ops.catalog(type(parent)) if k in ('required_node', 'optional_node') and getattr(parent, a, None) is e), None) if parent is not None else None
